@@ -16,7 +16,8 @@ RULE = ("fake worksheets: 0-3 leading blank rows, 0-2 leading untitled columns, 
         "(CellRangeDict, CellRangeSet) attributes and the converters cell_str/int/bool/list/set; entry points iter_table, "
         "read_table, the TableReader mixin and XlsTableReader with two object classes. Non-trivial = a ladder run spanning "
         ">=2 rows or >=2 columns, or a ranged attribute with known columns on both sides, or an absent optional column; "
-        "distinct by case hash.")
+        "distinct by case hash."
+        " Also: title cells holding numbers / booleans; columns only the second object class knows; entries mixin_interleaved (lazy read interleaved with a read of a mirrored sheet) and iter_table_values_used (the caller changes produced list / set / dict values, the sheet is read again).")
 ASSUMPTIONS = [
     "blank = None or whitespace-only string; id cells are None or valid values (never whitespace-only strings)",
     "unknown columns form one contiguous run with unique titles; all titles unique",
